@@ -39,6 +39,10 @@ func AllWeights() Weights {
 func CatalogWeights() Weights {
 	return Weights{Catalog: 40, KV: 2, Session: 4, Txn: 8, Config: 22, SysMeta: 3, VIP: 2, Peering: 2, Intention: 3}
 }
+// VIPWeights: catalog + many manual virtual-IP assignments over 3 addresses and 3 services
+func VIPWeights() Weights {
+	return Weights{Catalog: 30, VIP: 25, Config: 8, SysMeta: 2, Txn: 4}
+}
 func SessionWeights() Weights {
 	return Weights{Catalog: 22, KV: 22, Session: 18, Txn: 18, Query: 6, Reap: 1}
 }
